@@ -242,7 +242,9 @@ func c04RecordInternals(c *Ctx) {
 	for _, spec := range []struct{ fn, rec string }{{"circuitbreaker.(*circuitBreaker).recordSuccess", "recordSuccess"}, {"circuitbreaker.(*circuitBreaker).recordFailure", "recordFailure"}} {
 		fn := c.P.Func(spec.fn)
 		if fn == nil {
-			c.Unresolved(spec.fn, "not found")
+			// no such helper: its two steps are written where it used to be called; the API rules below and the
+			// executor pairing rule evaluate those callers with the breaker's helpers in place
+			c.Ok(spec.fn, "", "no separate helper (steps checked in its callers)")
 			continue
 		}
 		ev := NewEvaluator(c.P, EvalConfig{})
@@ -264,58 +266,106 @@ func c04RecordInternals(c *Ctx) {
 			c.Ok(spec.fn, c.P.FuncPos(fn), "state."+spec.rec+"() then state.checkThresholdAndReleasePermit(), once each")
 		}
 	}
-	// the standalone API takes the lock (deferred unlock) and calls the internal function once
-	for _, spec := range []struct{ fn, inner string }{
-		{"circuitbreaker.(*circuitBreaker).RecordSuccess", "recordSuccess"}, {"circuitbreaker.(*circuitBreaker).RecordFailure", "recordFailure"},
-		{"circuitbreaker.(*circuitBreaker).RecordResult", "recordResult"}, {"circuitbreaker.(*circuitBreaker).RecordError", "recordResult"},
-		{"circuitbreaker.(*circuitBreaker).TryAcquirePermit", "tryAcquirePermit"}} {
+	// the standalone API, evaluated with the breaker's own unexported helpers in place (whether RecordSuccess calls
+	// a recordSuccess helper or does its two steps itself is not the property's business): under the lock with a
+	// deferred unlock, exactly the state-level steps of the documented operation
+	inlineBreaker := func(f *ssa.Function, d int) bool {
+		return c.P.InScope[f] && recvCanon(f) == "circuitBreaker" && f.Object() != nil && !f.Object().Exported() && len(f.Blocks) > 0
+	}
+	for _, spec := range []struct {
+		fn   string
+		kind string // "success", "failure", "classify-result", "classify-error", "permit"
+	}{
+		{"circuitbreaker.(*circuitBreaker).RecordSuccess", "success"}, {"circuitbreaker.(*circuitBreaker).RecordFailure", "failure"},
+		{"circuitbreaker.(*circuitBreaker).RecordResult", "classify-result"}, {"circuitbreaker.(*circuitBreaker).RecordError", "classify-error"},
+		{"circuitbreaker.(*circuitBreaker).TryAcquirePermit", "permit"}} {
 		fn := c.P.Func(spec.fn)
 		if fn == nil {
 			c.Unresolved(spec.fn, "not found")
 			continue
 		}
-		ev := NewEvaluator(c.P, EvalConfig{})
+		ev := NewEvaluator(c.P, EvalConfig{Inline: inlineBreaker})
 		paths := ev.Run(fn)
 		ok := ev.Err == nil && len(paths) > 0
+		st := ev.LoadField(ev.NewState(), ev.Param(fn, fn.Params[0].Name()), "state")
 		for _, p := range paths {
-			var seq []string
-			for _, e := range impure(p) {
-				if e.Kind == EvCall || e.Kind == EvDefer {
-					pre := ""
-					if e.Kind == EvDefer {
-						pre = "defer "
-					}
-					seq = append(seq, pre+e.Method)
-				}
-			}
-			want := []string{"Lock", "defer Unlock", spec.inner, "Unlock"}
-			if strings.Join(seq, ",") != strings.Join(want, ",") {
+			bad := func(msg string) {
 				ok = false
-				c.Fail(spec.fn, c.P.FuncPos(fn), "must lock the breaker (deferred unlock) and call "+spec.inner+" exactly once; found: "+strings.Join(seq, ", "), pathTrace(ev, p))
+				c.Fail(spec.fn, c.P.FuncPos(fn), msg, pathTrace(ev, p))
 			}
-			if spec.inner == "tryAcquirePermit" && p.Exit == ExitReturn {
-				in := eventsWhere(p, func(e *Event) bool { return isCall(e, "tryAcquirePermit") })
-				if len(in) != 1 || p.Rets[0] != in[0].Res[0] {
-					ok = false
-					c.Fail(spec.fn, c.P.FuncPos(fn), "must return the state's admission decision", pathTrace(ev, p))
+			var seq []string
+			var isf, permit *Event
+			for _, e := range p.Events() {
+				if e.Kind == EvCall && isCall(e, "IsFailure") {
+					isf = e
 				}
 			}
-			if strings.HasPrefix(fn.Name(), "RecordResult") || strings.HasPrefix(fn.Name(), "RecordError") {
-				in := eventsWhere(p, func(e *Event) bool { return isCall(e, "recordResult") })
-				if len(in) == 1 {
-					if fn.Name() == "RecordResult" && !(in[0].Args[0] == ev.Param(fn, fn.Params[1].Name()) && in[0].Args[1].IsNilConst()) {
-						ok = false
-						c.Fail(spec.fn, c.P.FuncPos(fn), "RecordResult(r) must classify (r, nil)", pathTrace(ev, p))
+			for _, e := range impure(p) {
+				if e.Kind != EvCall && e.Kind != EvDefer {
+					seq = append(seq, "other")
+					continue
+				}
+				pre := ""
+				if e.Kind == EvDefer {
+					pre = "defer "
+				}
+				if e.Recv == st && st != nil {
+					pre += "state."
+					if e.Method == "tryAcquirePermit" {
+						permit = e
 					}
-					if fn.Name() == "RecordError" && in[0].Args[1] != ev.Param(fn, fn.Params[1].Name()) {
-						ok = false
-						c.Fail(spec.fn, c.P.FuncPos(fn), "RecordError(err) must classify (zero, err)", pathTrace(ev, p))
+				}
+				if e.Method == "IsFailure" {
+					continue
+				}
+				seq = append(seq, pre+e.Method)
+			}
+			got := strings.Join(seq, ",")
+			okSeq := "Lock,defer Unlock,state.recordSuccess,state.checkThresholdAndReleasePermit,Unlock"
+			failSeq := "Lock,defer Unlock,state.recordFailure,state.checkThresholdAndReleasePermit,Unlock"
+			switch spec.kind {
+			case "success":
+				if got != okSeq {
+					bad("must, under the breaker's lock (deferred unlock), record a success on the current state and then check thresholds / release the permit, once each; found: " + got)
+				}
+			case "failure":
+				if got != failSeq {
+					bad("must, under the breaker's lock (deferred unlock), record a failure on the current state and then check thresholds / release the permit, once each; found: " + got)
+				}
+			case "classify-result", "classify-error":
+				if isf == nil {
+					bad("the outcome must be classified by the policy's IsFailure")
+					continue
+				}
+				arg := ev.Param(fn, fn.Params[1].Name())
+				if spec.kind == "classify-result" && !(isf.Args[0] == arg && isf.Args[1].IsNilConst()) {
+					bad("RecordResult(r) must classify (r, nil)")
+				}
+				if spec.kind == "classify-error" && isf.Args[1] != arg {
+					bad("RecordError(err) must classify (zero, err)")
+				}
+				switch p.State.Facts.Truth(ev.TS, isf.Res[0]) {
+				case triT:
+					if got != failSeq {
+						bad("an outcome classified as failure must be recorded as a failure, under the lock; found: " + got)
 					}
+				case triF:
+					if got != okSeq {
+						bad("an outcome not classified as failure must be recorded as a success, under the lock; found: " + got)
+					}
+				default:
+					bad("what is recorded does not depend on the classification")
+				}
+			case "permit":
+				if got != "Lock,defer Unlock,state.tryAcquirePermit,Unlock" {
+					bad("must ask the current state for a permit exactly once under the breaker's lock (deferred unlock); found: " + got)
+				} else if p.Exit != ExitReturn || permit == nil || len(p.Rets) != 1 || p.Rets[0] != permit.Res[0] {
+					bad("must return the state's admission decision")
 				}
 			}
 		}
 		if ok {
-			c.Ok(spec.fn, c.P.FuncPos(fn), "Lock; defer Unlock; "+spec.inner+" once")
+			c.Ok(spec.fn, c.P.FuncPos(fn), "Lock; defer Unlock; the documented state-level steps once each")
 		}
 	}
 	// breaker.tryAcquirePermit delegates to the current state
@@ -334,8 +384,20 @@ func c04RecordInternals(c *Ctx) {
 			c.Ok(c.fn(fn), c.P.FuncPos(fn), "delegates to the current state")
 		}
 	} else {
-		c.Unresolved("circuitbreaker.(*circuitBreaker).tryAcquirePermit", "not found")
+		c.Ok("circuitbreaker.(*circuitBreaker).tryAcquirePermit", "", "no separate helper (the state is asked directly; checked in TryAcquirePermit and PreExecute)")
 	}
+}
+
+// onBreakerOrItsState: the receiver is the state's breaker (its tryAcquirePermit helper) or the breaker's current
+// state read at that point (the helper written out).
+func onBreakerOrItsState(recv *T) bool {
+	if recv == nil {
+		return false
+	}
+	if loadedField(recv) == "breaker" {
+		return true
+	}
+	return loadedField(recv) == "state" && recv.Args[0].Op == "faddr" && loadedField(recv.Args[0].Args[0]) == "breaker"
 }
 
 // ---- C04.halfopen --------------------------------------------------------------------------------------
@@ -634,13 +696,21 @@ func c03Transition(c *Ctx) {
 				mk = e
 			}
 		}
-		if mk == nil || mk.Args[0] != cb {
+		// the constructor may be a function taking the breaker or a method on it
+		var mkArgs []*T
+		if mk != nil {
+			if mk.Recv != nil {
+				mkArgs = append(mkArgs, mk.Recv)
+			}
+			mkArgs = append(mkArgs, mk.Args...)
+		}
+		if mk == nil || len(mkArgs) == 0 || mkArgs[0] != cb || (target == "open" && len(mkArgs) != 3) {
 			bad("the new state must be a freshly constructed " + target + " state of this breaker")
 			continue
 		}
 		if target == "open" {
 			// previous state's stats are kept; delay = computed unless -1, else configured
-			if mk.Args[1] != old {
+			if mkArgs[1] != old {
 				bad("the open state must keep the previous state's stats (metrics of the state being left)")
 				continue
 			}
@@ -657,11 +727,11 @@ func c03Transition(c *Ctx) {
 			isDefault := p.State.Facts.Truth(ts, ts.Cmp("==", cd.Res[0], ts.LinConst(-1, cd.Res[0].Typ)))
 			switch isDefault {
 			case triT:
-				if mk.Args[2] != cfgDelay {
+				if mkArgs[2] != cfgDelay {
 					bad("with no computed delay (-1) the configured delay must be used")
 				}
 			case triF:
-				if mk.Args[2] != cd.Res[0] {
+				if mkArgs[2] != cd.Res[0] {
 					bad("a computed delay must be used as the open delay")
 				}
 			default:
@@ -844,7 +914,7 @@ func c03OpenTable(c *Ctx) {
 		stores := eventsWhere(p, func(e *Event) bool { return e.Kind == EvStore })
 		switch elapsedOK {
 		case triT:
-			if len(half) != 1 || len(acq) != 1 || acq[0].Idx < half[0].Idx || loadedField(acq[0].Recv) != "breaker" || p.State.Facts.Truth(ts, p.Rets[0]) != p.State.Facts.Truth(ts, acq[0].Res[0]) {
+			if len(half) != 1 || len(acq) != 1 || acq[0].Idx < half[0].Idx || !onBreakerOrItsState(acq[0].Recv) || p.State.Facts.Truth(ts, p.Rets[0]) != p.State.Facts.Truth(ts, acq[0].Res[0]) {
 				ok = false
 				c.Fail(name, pos, "once the delay has elapsed (clock − start ≥ delay, boundary included) the breaker must half-open and the request must take one of the new state's trial permits (return breaker.tryAcquirePermit())", pathTrace(ev, p))
 			}
@@ -998,7 +1068,7 @@ func c03Constructors(c *Ctx) {
 				want = fc
 			}
 			mk := eventsWhere(p, func(e *Event) bool { return isCall(e, "newStats") })
-			if r.Op != "alloc" || want == nil || !sameUnder(ev, F, perm, want) || len(mk) != 1 || !sameUnder(ev, F, mk[0].Args[2], want) || !isFalse(mk[0].Args[1]) || ev.LoadField(p.State, r, "stats") != mk[0].Res[0] || ev.LoadField(p.State, r, "breaker") != b {
+			if r.Op != "alloc" || want == nil || !sameUnder(ev, F, perm, want) || len(mk) != 1 || len(fullArgs(mk[0])) != 3 || !sameUnder(ev, F, argN(mk[0], 2), want) || !isFalse(argN(mk[0], 1)) || ev.LoadField(p.State, r, "stats") != mk[0].Res[0] || ev.LoadField(p.State, r, "breaker") != b {
 				ok = false
 				c.Fail(c.fn(fn), c.P.FuncPos(fn), "a half-open state must start with fresh count-based stats and as many trial permits as its capacity (success capacity, else execution threshold, else failure capacity)", pathTrace(ev, p))
 			}
@@ -1047,7 +1117,7 @@ func c03Constructors(c *Ctx) {
 			if p.State.Facts.Truth(ts, ts.Cmp("!=", fe, ts.LinConst(0, u))) == triT {
 				want = fe
 			}
-			if r.Op != "alloc" || len(mk) != 1 || !sameUnder(ev, p.State.Facts, mk[0].Args[2], want) || !isTrue(mk[0].Args[1]) || ev.LoadField(p.State, r, "stats") != mk[0].Res[0] {
+			if r.Op != "alloc" || len(mk) != 1 || len(fullArgs(mk[0])) != 3 || !sameUnder(ev, p.State.Facts, argN(mk[0], 2), want) || !isTrue(argN(mk[0], 1)) || ev.LoadField(p.State, r, "stats") != mk[0].Res[0] {
 				ok = false
 				c.Fail(c.fn(fn), c.P.FuncPos(fn), "a closed state must start with fresh stats sized by the execution threshold, else the failure thresholding capacity, time-based when a period is configured", pathTrace(ev, p))
 			}
@@ -1186,7 +1256,7 @@ func c03Stats(c *Ctx) {
 	if fn := c.P.Func("circuitbreaker.(*timedStats).currentBucket"); fn == nil {
 		c.Unresolved("circuitbreaker.(*timedStats).currentBucket", "not found")
 	} else {
-		ev := NewEvaluator(c.P, EvalConfig{MaxVisits: 3})
+		ev := NewEvaluator(c.P, EvalConfig{MaxVisits: 3, Inline: func(f *ssa.Function, d int) bool { return c.P.InScope[f] && recvCanon(f) == "stat" }})
 		ts := ev.TS
 		ok := true
 		paths := ev.Run(fn)
@@ -1205,7 +1275,9 @@ func c03Stats(c *Ctx) {
 				newHead := ts.Bin("/", now, nanos, head0.Typ, false)
 				adv := p.State.Facts.Truth(ts, ts.Cmp(">", newHead, head0))
 				finalHead := ev.LoadField(p.State, recvS, "head")
-				nrm := len(eventsWhere(p, func(e *Event) bool { return isCall(e, "remove") }))
+				nrm := len(eventsWhere(p, func(e *Event) bool {
+					return e.Kind == EvStore && e.Addr.Op == "faddr" && (FieldName(e.Addr.Aux) == "successes" || FieldName(e.Addr.Aux) == "failures")
+				}))
 				switch adv {
 				case triT:
 					if finalHead != newHead {
@@ -1222,21 +1294,64 @@ func c03Stats(c *Ctx) {
 					c.Fail(c.fn(fn), c.P.FuncPos(fn), "bucket expiry does not depend on clock/bucketNanos > head", pathTrace(ev, p))
 				}
 			}
-			rm := eventsWhere(p, func(e *Event) bool { return isCall(e, "remove") })
-			rs := eventsWhere(p, func(e *Event) bool { return isCall(e, "reset") })
-			if len(rm) != len(rs) && p.Exit == ExitReturn {
-				ok = false
-				c.Fail(c.fn(fn), c.P.FuncPos(fn), "every bucket removed from the summary must also be reset (and vice versa)", pathTrace(ev, p))
-				continue
-			}
-			for i := range rm {
-				if i < len(rs) && (rm[i].Args[0] != rs[i].Recv || rs[i].Idx < rm[i].Idx) {
-					ok = false
-					c.Fail(c.fn(fn), c.P.FuncPos(fn), "the bucket subtracted from the summary and the bucket reset must be the same one, subtract first", pathTrace(ev, p))
+			// which buckets left the summary (their counts are subtracted from it) and which were zeroed: with the
+			// bucket helpers (remove / reset upstream) evaluated in place this is read off the stores themselves
+			if p.Exit == ExitReturn {
+				removed := map[string]map[*T]bool{"successes": {}, "failures": {}}
+				zeroed := map[string]map[*T]int{"successes": {}, "failures": {}}
+				firstSub := map[*T]int{}
+				for _, e := range p.Events() {
+					if e.Kind != EvStore || e.Addr.Op != "faddr" {
+						continue
+					}
+					f := FieldName(e.Addr.Aux)
+					if f != "successes" && f != "failures" {
+						continue
+					}
+					base := e.Addr.Args[0]
+					if base.Op == "iaddr" {
+						if k, isK := e.Val.IsConstInt(); isK && k == 0 {
+							zeroed[f][base] = e.Idx
+						}
+						continue
+					}
+					// a store into the summary: which buckets' counts it subtracts, and when each first appears
+					if l := asLin(e.Val); l != nil {
+						for k, sym := range l.Syms {
+							if l.Coefs[k] == -1 && sym.Op == "init" && sym.Args[0].Op == "faddr" && FieldName(sym.Args[0].Aux) == f && sym.Args[0].Args[0].Op == "iaddr" {
+								b := sym.Args[0].Args[0]
+								removed[f][b] = true
+								if _, seenB := firstSub[b]; !seenB {
+									firstSub[b] = e.Idx
+								}
+							}
+						}
+					}
 				}
-				if a := rm[i].Args[0]; !(a.Op == "iaddr" && a.Args[1].Op == "bin" && a.Args[1].Aux == "%") {
-					ok = false
-					c.Fail(c.fn(fn), c.P.FuncPos(fn), "bucket indexes must be reduced modulo the bucket count", pathTrace(ev, p))
+				for _, f := range []string{"successes", "failures"} {
+					for b := range removed[f] {
+						zi, isZ := zeroed[f][b]
+						if !isZ || !removed["successes"][b] || !removed["failures"][b] {
+							ok = false
+							c.Fail(c.fn(fn), c.P.FuncPos(fn), "every bucket removed from the summary must also be reset (and vice versa)", pathTrace(ev, p))
+							break
+						}
+						if zi < firstSub[b] {
+							ok = false
+							c.Fail(c.fn(fn), c.P.FuncPos(fn), "the bucket subtracted from the summary and the bucket reset must be the same one, subtract first", pathTrace(ev, p))
+						}
+						if !(b.Args[1].Op == "bin" && b.Args[1].Aux == "%") {
+							ok = false
+							c.Fail(c.fn(fn), c.P.FuncPos(fn), "bucket indexes must be reduced modulo the bucket count", pathTrace(ev, p))
+						}
+					}
+					for b := range zeroed[f] {
+						if !removed[f][b] {
+							ok = false
+							c.Fail(c.fn(fn), c.P.FuncPos(fn), "every bucket removed from the summary must also be reset (and vice versa)", pathTrace(ev, p))
+							break
+						}
+					}
 				}
 			}
 			if p.Exit == ExitReturn {
